@@ -14,12 +14,12 @@ CHECKS = {
  "C02": ("geosim+samplersim", "exploration", "seeded histories (len / sample with 0..3 external parameter rows / repeated calls) over sampler expressions with recording proxies on every node, judged by the R-count model; plus row-count/pairing judgement of the C01 geometry cases", TECH + "operation histories under an owned RNG with value faults and spurious rejections, reference model R-count"),
  "C05": ("geosim", "exploration", "partial claim: membership answers computed during simulated sampling (monitor on every node), the library's own samples, and riding probe points, against the float64 margin outside a 1e-3 band", TECH + "membership monitor riding on simulated sampling (adversarial draws reach corners/edge ends) + reference margin"),
  "C06": ("geosim", "exploration", "normals at the library's own boundary samples incl. measure-zero corner/edge-end draws injected at the RNG seam; finite, unit, outward by a two-sided step test against the reference margin", TECH + "corner-producing draw faults at the RNG seam + reference-margin step oracle"),
- "C10": ("geosim", "exploration", "partial claim: every volume the library computes during simulated sampling and the root volume against closed forms/composition rules; density->count exactly for closed-form primitives, in expectation (pooled z-test) for rejection-based shapes; set_volume/flag histories", TECH + "volume monitor on simulated density sampling + count oracles over owned draw streams"),
- "C07": ("trainsim", "exploration", "refinement of Lightning-driven training (real Solver under a real Trainer, trainer options = the schedule) against the reference loop R-loop over training histories: per-step learnable state, lr, draw counts, call schedule, validation purity", TECH + "two-world refinement check under an owned RNG; the simulator chooses Lightning's validation/sanity/logging schedule"),
- "C19": ("trainsim", "fault_enumeration", "per configuration every single crash point (step x hook) is enumerated: crash, only files survive, rebuild from scratch with another init seed, resume to N, bitwise comparison with the uninterrupted run; plus multi-crash schedules and weight-file load/identity checks", TECH + "crash-point enumeration with restart from durable state only, bitwise refinement against the uninterrupted run"),
- "C04": ("condsim", "exploration", "histories of evaluations of a condition whose sampler is wrapped by a recording proxy and whose residual is a probe: arguments by name at exactly the sampled rows of this evaluation, analytic derivatives, documented reduction; evaluation counts straddle the static resample interval", TECH + "recording-proxy seam on sampler draws + probe residual + closed-form model; R-reduce reference"),
+ "C10": ("geosim+volumesim", "exploration", "partial claim: every volume the library computes during simulated sampling and the root volume against closed forms/composition rules; density->count exactly for closed-form primitives, in expectation (pooled z-test) for rejection-based shapes; set_volume/flag histories", TECH + "volume monitor on simulated density sampling + count oracles over owned draw streams"),
+ "C07": ("trainsim+donsim", "exploration", "refinement of Lightning-driven training (real Solver under a real Trainer, trainer options = the schedule) against the reference loop R-loop over training histories: per-step learnable state, lr, draw counts, call schedule, validation purity", TECH + "two-world refinement check under an owned RNG; the simulator chooses Lightning's validation/sanity/logging schedule"),
+ "C19": ("trainsim+donsim", "fault_enumeration", "per configuration every single crash point (step x hook) is enumerated: crash, only files survive, rebuild from scratch with another init seed, resume to N, bitwise comparison with the uninterrupted run; plus multi-crash schedules and weight-file load/identity checks", TECH + "crash-point enumeration with restart from durable state only, bitwise refinement against the uninterrupted run"),
+ "C04": ("condsim+donsim", "exploration", "histories of evaluations of a condition whose sampler is wrapped by a recording proxy and whose residual is a probe: arguments by name at exactly the sampled rows of this evaluation, analytic derivatives, documented reduction; evaluation counts straddle the static resample interval", TECH + "recording-proxy seam on sampler draws + probe residual + closed-form model; R-reduce reference"),
  "C09": ("deeponetsim", "exploration", "histories of fix/forward operations on a DeepONet (state = cached branch features) judged after every forward by the explicit inner product of independently computed features of the most recently fixed functions, batch-order invariance and the plain-network twin (outputs, 1st/2nd input derivatives, parameter gradients)", TECH + "operation histories over cached state against the R-twin reference model (no draw/fault applies once samplers are static grids: stated)"),
- "C14": ("condsim", "exploration", "schedules of construct/evaluate events over conditions sharing user objects, every operation replayed in a solo world built from the same recipe under the same per-operation draw stream; user containers compared by object identity; repeatability of static conditions", TECH + "two-world isolation check over interleaved construct/evaluate schedules with reseeded draw streams"),
+ "C14": ("condsim+donsim", "exploration", "schedules of construct/evaluate events over conditions sharing user objects, every operation replayed in a solo world built from the same recipe under the same per-operation draw stream; user containers compared by object identity; repeatability of static conditions", TECH + "two-world isolation check over interleaved construct/evaluate schedules with reseeded draw streams"),
  "C11": ("lawsim", "exploration", "laws as statements about the push-forward of the simulator-owned (fault-free) draw stream: two-sample chi-square + largest cell residual (alpha 1e-9 each) against an independent reference sampler for uniform and Gaussian laws, exact slab occupancy for LHS, calibrated unevenness bound for grids; a statistical alarm is a replayable case", TECH + "owned draw stream (replayable statistical decisions, fixed false-alarm budget) + independent reference sampler"),
  "C17": ("partialsim", "exploration", "histories of repeated / nested partial evaluation under an owned RNG: free variables, membership, volume, box and sampling agree with the original at the fixed values; behavioural snapshots show every earlier domain unchanged", TECH + "partial-evaluation histories with behavioural snapshots; sampling agreement under owned draws; reference AST substitution"),
  "C13": ("objsim", "exploration", "degenerate use (no draws, no faults): interleaved operation histories over several holders of possibly shared state (wrapper, re-wrap, partial evaluations, deep copies) judged against the R-holders reference model; isolation and name-based routing", TECH + "operation histories over shared-state holders against a reference model (history half of the technique only; no fault applies)"),
@@ -36,6 +36,8 @@ ENG = {
  "partialsim": ("simverif/partialsim.py", "partial-evaluation histories of parameter-dependent domains"),
  "objsim": ("simverif/objsim.py", "interleaved operations on holders of shared UserFunction state; R-holders model"),
  "loadersim": ("simverif/loadersim.py", "tagged data sets, one epoch as a batch history, simulator-owned shuffle permutations"),
+ "donsim": ("simverif/donsim.py", "physics-informed DeepONet conditions on real small DeepONets driven by the Solver's protocol (training steps with the step number, validation steps without, simulated optimiser steps); solo worlds and a direct oracle on a twin network"),
+ "volumesim": ("simverif/volumesim.py", "pooled density counts against the true measure; set_volume and partial-evaluation histories"),
  "samplersim": ("simverif/samplersim.py", "operation histories on sampler expressions / static / adaptive samplers with recording proxies; R-count, R-static, R-adaptive reference models"),
 }
 import os, importlib
